@@ -25,7 +25,7 @@ clause → theorem
   and the complex twins `complex_generic_reads_bulk`, `complex_bulk_reads_generic`, `complex_roundtrip`
 * decoded elements are the originals ............. `typed_roundtrip`, `complex_roundtrip`, `typed_size_closed_form`, `complex_size_closed_form`
 * streaming writers = buffered builders .......... `streaming_eq_buffered`, `complex_streaming_eq_buffered`
-* aligned form: payload offset ................... `aligned_payload_offset`, `aligned_size_closed_form`
+* aligned form: payload offset ................... `base_congruent_to_frame_offset`, `aligned_payload_offset`, `aligned_size_closed_form`
 * same elements wherever the frame lands ......... `aligned_roundtrip`, `aligned_owned_eq_borrowed`, `aligned_route_any_address`
 * borrowed when aligned, copied otherwise ........ `aligned_owned_eq_borrowed`, `aligned_route_any_address`
 * marker dispatch cannot misroute ................ `marker_is_beve's`, `regular_never_marker`, `regular_body_on_ref_route`
@@ -161,20 +161,23 @@ theorem complex_bulk_reads_generic {t : ElemTy} {xs : List Bytes} (v : Vec t (2 
 
 /-! ### aligned form -/
 
-/-- The base offset the builder pads for is the payload's real position in the frame: header + query. -/
-theorem base_is_header_plus_query (q : Nat) : baseOffset F.baseTerms q = 48 + q := by
-  have : F.baseTerms = [.header, .query] := by decide
-  simp [this, baseOffset]
+/-- The base offset the builder pads for is congruent (mod 16, hence modulo every element alignment)
+to the payload's real position in the frame, header + query, for every query length.  Stated on the
+coefficients of the extracted sum, so `HEADER_SIZE + query.len()` passes and a sum that drops the
+query term does not. -/
+theorem base_congruent_to_frame_offset (q : Nat) : baseOffset F.baseTerms q % 16 = (48 + q) % 16 :=
+  baseOffset_congr F.baseTerms (by decide) (by decide) q
 
 /-- For every query length, element type and element count the payload of the aligned body starts at a
 frame offset that is a multiple of the element alignment. -/
 theorem aligned_payload_offset {t : ElemTy} {xs : List Bytes} (v : Vec t t.width xs) (q : Nat) :
     ∃ p, parseAligned t (bodyAlignedTypedSlice F t q xs) = .ok p ∧
       (48 + q + p.dataOffset) % t.align = 0 ∧ p.len = xs.length ∧ p.data = xs.flatten := by
-  refine ⟨⟨xs.length, alignedDataOffset t xs.length (48 + q), xs.flatten⟩, ?_, ?_, rfl, rfl⟩
-  · have := parseAligned_encode' (t := t) v (48 + q) []
-    simpa [bodyAlignedTypedSlice, base_is_header_plus_query] using this
-  · exact alignedDataOffset_aligned t xs.length (48 + q)
+  refine ⟨⟨xs.length, alignedDataOffset t xs.length (baseOffset F.baseTerms q), xs.flatten⟩, ?_, ?_, rfl, rfl⟩
+  · have := parseAligned_encode' (t := t) v (baseOffset F.baseTerms q) []
+    simpa [bodyAlignedTypedSlice] using this
+  · exact aligned_of_congr v.valid _ _ _ (base_congruent_to_frame_offset q)
+      (alignedDataOffset_aligned t xs.length _)
 
 theorem aligned_size_closed_form {t : ElemTy} {xs : List Bytes} (hb : Blocks t.width xs) (base : Nat) :
     (encodeAligned t xs base).length = alignedSliceSize t xs.length base := by
@@ -224,11 +227,12 @@ theorem aligned_route_any_address {t : ElemTy} {xs : List Bytes} (v : Vec t t.wi
       .called (if a % t.align = 0 then .borrowed xs else .owned xs) := by
   have hs : serverFormatOk F BEVE = true := by decide
   unfold sliceRefHandler bodyAlignedTypedSlice
-  rw [hs, if_pos rfl, base_is_header_plus_query, ref_body_aligned F marker_is_beve's v]
-  have h0 := alignedDataOffset_aligned t xs.length (48 + q)
-  have e : (a + 48 + q + alignedDataOffset t xs.length (48 + q)) % t.align = a % t.align := by
-    rw [show a + 48 + q + alignedDataOffset t xs.length (48 + q) =
-      a + (48 + q + alignedDataOffset t xs.length (48 + q)) by omega]
+  rw [hs, if_pos rfl, ref_body_aligned F marker_is_beve's v]
+  have h0 := aligned_of_congr v.valid _ _ _ (base_congruent_to_frame_offset q)
+    (alignedDataOffset_aligned t xs.length (baseOffset F.baseTerms q))
+  have e : (a + 48 + q + alignedDataOffset t xs.length (baseOffset F.baseTerms q)) % t.align = a % t.align := by
+    rw [show a + 48 + q + alignedDataOffset t xs.length (baseOffset F.baseTerms q) =
+      a + (48 + q + alignedDataOffset t xs.length (baseOffset F.baseTerms q)) by omega]
     rw [Nat.add_mod, h0, Nat.add_zero, Nat.mod_mod]
   rw [e]
 
